@@ -80,13 +80,15 @@ StatefulCases ==
   [T : Paths, G : Paths, sub : BOOLEAN, exp : {"farfuture"}, nbf : {"absent"}, tuser : {"tu"}, cuser : {"cu"}]
   \cup [T : {"a"}, G : {"a"}, sub : {FALSE}, exp : Times, nbf : Times, tuser : {"tu"}, cuser : {"cu"}]
   \cup [T : {"a"}, G : {"a"}, sub : {FALSE}, exp : {"farfuture"}, nbf : {"absent"},
-        tuser : {"absent", "tu"}, cuser : {"nil", "cu", "configured"}]
+        tuser : {"absent", "empty", "tu"}, cuser : {"nil", "cu", "configured"}]
 
 \* result: [accept, user, why] ; why distinguishes the two username errors
 DecideStateful(c) ==
   IF c.tuser = "absent" /\ c.cuser = "nil" THEN [accept |-> FALSE, user |-> "", why |-> "need-username"]
   ELSE IF ~(ScopeOK(c.T, c.G, c.sub) /\ WindowOK(c.exp, c.nbf)) THEN [accept |-> FALSE, user |-> "", why |-> "refused"]
-  ELSE IF c.tuser # "absent" THEN [accept |-> TRUE, user |-> "tu", why |-> ""]
+  ELSE IF c.tuser = "tu" THEN [accept |-> TRUE, user |-> "tu", why |-> ""]
+  \* a username that is present but empty does not override the client's; without one the member is anonymous
+  ELSE IF c.tuser = "empty" /\ c.cuser = "nil" THEN [accept |-> TRUE, user |-> "", why |-> ""]
   ELSE IF c.cuser = "configured" THEN [accept |-> FALSE, user |-> "", why |-> "duplicate-username"]
   ELSE [accept |-> TRUE, user |-> "cu", why |-> ""]
 
